@@ -22,11 +22,11 @@ import (
 
 // scriptServer is a TCP endpoint whose behaviour per connection is scripted.
 type scriptServer struct {
-	l     net.Listener
-	mu    sync.Mutex
-	next  []byte // bytes to send to the next connection (nil: close at once)
-	mode  string // "reply", "reset", "short"
-	conns int
+	l        net.Listener
+	mu       sync.Mutex
+	next     []byte // bytes to send to the next connection (nil: close at once)
+	mode     string // "reply", "reset", "short"
+	conns    int
 	onAccept func() // called (under mu) for every accepted connection, in accept order
 }
 
